@@ -153,7 +153,11 @@ def _resolve_concat(conc: Concat) -> Concat:
         raise RuntimeError("Concatenation with no parts")
 
     if all(_flat_concatable(p) for p in conc.parts):
-        return Concat(*[_resolve_sliceable(p) for p in conc.parts])
+        parts = ()  # (Strided and reversed signal-slices resolve to concatenations of their bits. Keep the result flat.)
+        for p in conc.parts:
+            resolved = _resolve_sliceable(p)
+            parts += resolved.parts if isinstance(resolved, Concat) else (resolved,)
+        return Concat(*parts)
 
     if isinstance(conc.parts[0], Concat):
         # Recursively cover the first element, and all others
